@@ -276,7 +276,8 @@ def shards(ctx):
     return [{'index': i} for i in range(16)]
 
 
-ROOTS = ['score-partwise', 'part', 'measure', 'measure', 'note', 'note', 'attributes', 'attributes', 'direction',
+ROOTS = ['score-partwise', 'part', 'part', 'measure', 'measure', 'measure', 'note', 'note', 'note', 'attributes',
+         'attributes', 'direction',
          'barline', 'print', 'defaults', 'notations', 'technical', 'forward', 'backup', 'figured-bass',
          'staff-details', 'measure-style', 'appearance', 'page-layout', 'system-layout', 'part-group',
          'midi-instrument', 'frame', 'degree', 'listening', 'grouping', 'for-part', 'time', 'tuplet']
@@ -290,7 +291,7 @@ def run_shard(ctx, shard, acc):
     def body(data):
         el = data.draw(st.sampled_from(roots)) if data.draw(st.integers(0, 4)) > 0 else data.draw(st.sampled_from(names))
         flags = set()
-        plan = draw_doc(data, el, data.draw(st.integers(2, 4)), flags, [80 if ctx.quick else 200])
+        plan = draw_doc(data, el, data.draw(st.integers(3, 4)), flags, [90 if ctx.quick else 200])
         if plan is None:
             acc.count('excluded-by-known-finding-scope')
             return
